@@ -42,8 +42,16 @@ RULES = {
 def _run_bin(binary, models, prop, seed, cases, max_len, out, extra=()):
     cmd = [binary, "--models", models, "--prop", prop, "--seed", str(seed), "--cases", str(cases), "--max-len", str(max_len), "--out", out] + list(extra)
     t0 = time.time()
+    # the process environment is part of "every parse": every second batch process runs as in an interactive terminal
+    # session (narrow COLUMNS, colours forced, TERM set), the others with these variables removed
+    env = dict(os.environ)
+    for k in ("COLUMNS", "LINES", "TERM", "NO_COLOR", "CLICOLOR", "CLICOLOR_FORCE", "RUST_BACKTRACE"):
+        env.pop(k, None)
+    digits = "".join(ch for ch in os.path.basename(binary) if ch.isdigit())
+    if digits and int(digits[-2:]) % 2 == 1:
+        env.update(COLUMNS="37", LINES="12", TERM="xterm-256color", CLICOLOR_FORCE="1", RUST_BACKTRACE="1")
     try:
-        p = subprocess.run(cmd, stdout=subprocess.DEVNULL, stderr=subprocess.DEVNULL, timeout=3600)
+        p = subprocess.run(cmd, stdout=subprocess.DEVNULL, stderr=subprocess.DEVNULL, timeout=3600, env=env)
         rc = p.returncode
     except subprocess.TimeoutExpired:
         rc = -999
